@@ -219,7 +219,8 @@ def gen_workspace(rnd: random.Random, root="/vw", max_depth=3, chain_only=False)
             src += fixture_src(rnd, "local_%d" % k, params=rnd.sample(names, rnd.randint(1, len(names)))) + "\n"
             tags.append("usage:fixture-param")
         for t in range(rnd.randint(1, 3)):
-            kind = rnd.choice(["param", "param", "usefixtures", "indirect", "class"])
+            kind = rnd.choice(["param", "param", "usefixtures", "indirect", "class", "class-pair"] if not chain_only else
+                              ["param", "param", "usefixtures", "indirect", "class"])
             tags.append("usage:" + kind)
             if kind == "param":
                 ps = rnd.sample(names, rnd.randint(1, len(names)))
@@ -230,6 +231,19 @@ def gen_workspace(rnd: random.Random, root="/vw", max_depth=3, chain_only=False)
                 src += test_src(rnd, "test_%d_%d" % (k, t), [], usefixtures=rnd.sample(names, rnd.randint(1, len(names)))) + "\n"
             elif kind == "indirect":
                 src += test_src(rnd, "test_%d_%d" % (k, t), [names[0]], indirect=names[0]) + "\n"
+            elif kind == "class-pair":
+                # two test classes that EACH define the same fixture name and use it in their methods
+                # (and in a class-level fixture): every feature must name the same definition for
+                # the usages inside the first class
+                n = rnd.choice(names)
+                for half in ("A", "B"):
+                    src += "class TestP%d%s:\n" % (t, half)
+                    src += fixture_src(rnd, n, params=["self"], indent="    ", doc="of class %s" % half) + "\n"
+                    if rnd.random() < 0.5:
+                        src += fixture_src(rnd, "repo_%d%s" % (t, half.lower()), params=["self", n], indent="    ") + "\n"
+                    src += test_src(rnd, "test_m", ["self", n], indent="    ") + "\n"
+                if rnd.random() < 0.3:
+                    src += fixture_src(rnd, n, doc="module level, below the classes") + "\n"
             else:
                 src += "class TestK%d:\n" % t
                 if rnd.random() < 0.4:
